@@ -138,7 +138,7 @@ func buildCtx(fn *ssa.Function, src Source) (*ctxIn, error) {
 					var rec []string
 					if n, ok := t.(*types.Named); ok && RecordedFieldNames != nil && n.Obj().Pkg() != nil {
 						if r := RecordedFieldNames(load.Rel(n.Obj().Pkg()) + "." + n.Obj().Name()); len(r) == st.NumFields() {
-							rec = r
+							rec = load.AliasFieldNames(r, st)
 						}
 					}
 					for k := 0; k < st.NumFields(); k++ {
